@@ -70,7 +70,7 @@ Proof. repeat split; reflexivity. Qed.
 End Src.
 
 (* non-vacuity: a cycle that hits consumed = allowance exactly (V2, capacity 30/s, 100 ms: allowance 3) *)
-Definition ex_cfg : cfg := mkCfg V2 10 false true 0 0 0 0 0 0 [mkW 0 0 0] 0 0 0.
+Definition ex_cfg : cfg := mkCfg V2 10 false true 0 0 0 0 0 0 [mkW 0 0 0] 0 0 0 0.
 Definition ex_enq (obj : nat) (cost : Z) : label := AEnqueue (mkE false (Some 0%nat) obj cost cost false 0 false).
 Example C02_nonvacuous :
   exists s os, run ex_cfg (init ex_cfg)
